@@ -521,11 +521,15 @@ def run(tier):
 
     # 1. the property on the implementation
     bad = []
+    crashed = False
     for i, op in enumerate(ops):
         if op.startswith('c14.write'):
+            if raw[i] is None and crashed:
+                continue        # not run: the probe died at an earlier op (reported there)
             why = oracle_write(op, raw[i], calls[i], base)
             if why:
                 bad.append((i, op, why))
+            crashed = crashed or raw[i] is None
     for i, op, why in bad[:3]:
         out.violation(f'{op[:120]}: {why}', {'kind': 'impl-oracle', 'ops': [op], 'observed': raw[i], 'calls': canon_calls(calls[i] or [], base),
                                              'why': why, 'how': 'python3 check.py C14 --replay <this file>'})
@@ -558,6 +562,8 @@ def run(tier):
             why = 'no observation'
         elif 'textdiff=0' not in traw[i]:
             why = 'genJumpData changed .text'
+        elif op.startswith('c14.gen') and int(op.split()[1]) < 13 and traw[i].startswith('ok'):
+            why = f'genJumpData accepts a function of {op.split()[1]} bytes, too short to hold the 13-byte jump'
         if why:
             tbad.append((i, op, why))
     for i, op, why in tbad[:3]:
